@@ -775,13 +775,24 @@ fn splitmix(mut x: u64) -> u64 {
     z ^ (z >> 31)
 }
 
-fn conn_record(sc: &StreamClass, entry: Entry, o: &Obs, refo: &Obs) -> Value {
+fn conn_record(sc: &StreamClass, entry: Entry, o: &Obs, refo: &RefObs) -> Value {
+    let refs = &refo.answers;
+    let refo = &refo.unfrag;
     json!({
         "k": "conn", "sid": sc.sid, "kind": sc.kind, "entry": entry.name(),
         "head": sc.head(), "len": sc.len, "eof": sc.eof, "total": sc.bytes.len(),
-        "proto": o.proto, "saw": o.saw, "sent": refo.saw, "ans": o.ans, "ref": refo.ans,
+        "proto": o.proto, "saw": o.saw, "sent": refo.saw, "ans": o.ans, "ref": refs,
         "human": o.human, "refhuman": refo.human, "refproto": refo.proto,
     })
+}
+
+/// The single-protocol reference for one stream class: the unfragmented run, and the set of answers
+/// plain hyper gives to the same bytes over every chunking with <= 2 cuts and one byte at a time
+/// (hyper's own answer to some malformed streams depends on the fragmentation).
+#[derive(Clone, Debug)]
+struct RefObs {
+    unfrag: Obs,
+    answers: Vec<String>,
 }
 
 // ------------------------------------------------------------------------------------------------
@@ -943,8 +954,8 @@ fn main() {
 
     // reference runs: the same bytes, unfragmented, against plain hyper http1 / http2
     let rt = new_rt();
-    let mut refs: HashMap<(i64, usize, String, usize, bool), Obs> = HashMap::new();
-    let ref_for = |rt: &tokio::runtime::Runtime, sc: &StreamClass| -> Obs {
+    let mut refs: HashMap<(i64, usize, String, usize, bool), RefObs> = HashMap::new();
+    let ref_for = |rt: &tokio::runtime::Runtime, sc: &StreamClass| -> RefObs {
         let e = if sc.m >= 24 { Entry::PlainH2 } else { Entry::PlainH1 };
         let mut items = vec![];
         if !sc.bytes.is_empty() {
@@ -953,7 +964,35 @@ fn main() {
         if sc.eof {
             items.push(Item::Eof);
         }
-        rt.block_on(run_conn(e, sc.bytes.clone(), items, false))
+        let unfrag = rt.block_on(run_conn(e, sc.bytes.clone(), items, false));
+        let mut answers = std::collections::BTreeSet::new();
+        answers.insert(unfrag.ans.clone());
+        let w = sc.window();
+        let mut masks: Vec<u32> = vec![0];
+        for a in 1..w {
+            masks.push(1 << (a - 1));
+            for b in (a + 1)..w {
+                masks.push((1 << (a - 1)) | (1 << (b - 1)));
+            }
+        }
+        if w >= 2 {
+            masks.push(((1u64 << (w - 1)) - 1) as u32);
+        }
+        rt.block_on(async {
+            for mk in masks {
+                let chunks = chunks_from_mask(mk, w);
+                // Pending placements too (on the chunkings with <= 1 cut): on truncated HTTP/2 streams what
+                // hyper manages to write before it sees the end of the stream depends on the polls in between
+                let modes: &[u64] = if mk.count_ones() <= 1 { &[0, 1, 2, 3, 4, 5, 6] } else { &[0] };
+                for &pm in modes {
+                    let pmask = pend_mask(pm, nitems(sc, chunks.len()));
+                    let items = build_items(sc, &chunks, pmask);
+                    let o = run_conn(e, sc.bytes.clone(), items, false).await;
+                    answers.insert(o.ans);
+                }
+            }
+        });
+        RefObs { unfrag, answers: answers.into_iter().collect() }
     };
     for f in &fams {
         let key = (f.sc.sid, f.sc.m, f.sc.kind.clone(), f.sc.len, f.sc.eof);
@@ -966,7 +1005,7 @@ fn main() {
     // --- families, in parallel (each thread: its own paused current_thread runtime) -------------
     let t0 = std::time::Instant::now();
     let fams = Arc::new(fams);
-    let refs_a: Arc<Vec<Obs>> = Arc::new(
+    let refs_a: Arc<Vec<RefObs>> = Arc::new(
         fams.iter().map(|f| refs[&(f.sc.sid, f.sc.m, f.sc.kind.clone(), f.sc.len, f.sc.eof)].clone()).collect(),
     );
     let next = Arc::new(AtomicUsize::new(0));
@@ -1026,7 +1065,7 @@ fn main() {
                                 m.insert("caps".into(), json!(o.caps));
                                 m.insert("got".into(), json!(o.got));
                                 m.insert("res".into(), json!(o.res));
-                                m.insert("refres".into(), json!(refo.res));
+                                m.insert("refres".into(), json!(refo.unfrag.res));
                                 raws.push((idx, r));
                             }
                         }
@@ -1061,6 +1100,7 @@ fn main() {
         let mut r = conn_record(&f.sc, f.entry, &o, refo);
         let m = r.as_object_mut().unwrap();
         m.insert("g".into(), json!(1));
+        m.insert("fam".into(), json!(k.fam));
         m.insert("n".into(), json!(g.n));
         m.insert("nsplit".into(), json!(g.nsplit));
         m.insert("famn".into(), json!(fam_tot[&k.fam].0));
@@ -1127,7 +1167,7 @@ fn main() {
         m.insert("caps".into(), json!(o.caps));
         m.insert("got".into(), json!(o.got));
         m.insert("res".into(), json!(o.res));
-        m.insert("refres".into(), json!(refo.res));
+        m.insert("refres".into(), json!(refo.unfrag.res));
         if let Some(c) = cancel {
             m.insert("k".into(), json!("cancel"));
             m.insert("cancel".into(), json!(c));
